@@ -405,6 +405,7 @@ func runC01(c *Ctx) {
 		}
 	}
 	k.addDec(ddocs, "c01-directed")
+	c.c01Times() // times: the bit-packed layout against CE.Model.CbeTime (c01_time.go)
 	for kind, v := range g.Kinds {
 		c.Rep.Distribution["kind:"+kind] += v
 	}
